@@ -22,17 +22,27 @@ RULE = ("per function and type: every value of the 8-bit types (every pair for b
         "24-point boundary grid (thorough); for 32/64-bit every single-bit value, every all-ones-below-bit value, their "
         "+-1 neighbours, the limits, their negatives for signed types, and seeded random values / pairs; rotation counts "
         "-130..130 plus INT_MIN/INT_MAX and neighbours; all 100 ordered pairs of the ten builtin types for cmp_*, "
-        "in_range, saturate_cast (values: limits of both types +-1).  Only arguments inside the documented domain are "
+        "in_range, saturate_cast (values: limits of both types +-1); the character types char, wchar_t, char8_t, "
+        "char16_t, char32_t for the functions constrained by `integral` (byteswap, abs, ilog2, ipow, ipow<2>, idiv, "
+        "midpoint, gcd, lcm: all 8-bit values, boundary/random values of the wider ones); midpoint's pointer overload on "
+        "every pair of positions of arrays of 0..33 elements and boundary/random positions of arrays up to 2^20 elements.  "
+        "Only arguments inside the documented domain are "
         "generated (the same decidable predicates as the hypotheses of the Lean theorems: bit_ceil x <= 2^(w-1); "
         "bit position < w; divisor != 0 and quotient representable; |m|,|n| (gcd) and the result (lcm, ipow, abs) "
-        "representable; ilog2 x >= 1).  A line carries up to 32 evaluations (list argument).  A line is non-trivial "
+        "representable; both pointers into one array; ilog2: every value, zero and the negative ones included).  "
+        "A line carries up to 32 evaluations (list argument).  A line is non-trivial "
         "when its expected results are not all equal to each other, to 0/1 or to the first argument; distinct = "
         "distinct line text.")
 ASSUMPTIONS = ["libstdc++ 12 <bit>/<numeric>/<utility> and exact __int128 arithmetic are the reference for spec validation (R2)",
                "an integer type is modelled as (width, signedness); long and long long are both the 64-bit type",
                "compiler builtins (__builtin_popcount*, __builtin_bswap*, __builtin_add_overflow) are assumed to implement "
                "their documentation; the harness observes both the builtin and the portable fallback on every input",
-               "host is little-endian (ntoh/hton swap unconditionally in the source)"]
+               "host is little-endian (ntoh/hton swap unconditionally in the source)",
+               "x86-64 Linux data model: char = signed 8 bit, wchar_t = signed 32 bit, char16_t/char32_t/char8_t = unsigned "
+               "16/32/8 bit, ptrdiff_t = signed 64 bit (static_assert in the harness); a pointer into an array is modelled "
+               "as its index 0..len",
+               "ilog2 of x <= 0 has no independent reference (no std counterpart, no logarithm): the reference column "
+               "restates the documented value 0, so R2 is vacuous there while R1/R3 (code = model = theorem value) are not"]
 TRUSTED = ["hand model Tetl/C14/Model.lean tied to the source by the correspondence run (R1) on every run",
            "spec Tetl/C14/Spec.lean validated against libstdc++/__int128 (R2) on every run"]
 SEARCH_CAP = 400000
@@ -41,21 +51,27 @@ UT = {"u8": 8, "u16": 16, "u32": 32, "u64": 64, "ull": 64}
 ST = {"i8": 8, "i16": 16, "i32": 32, "i64": 64, "ll": 64}
 ALL = dict(UT)
 ALL.update(ST)
+# character types (x86-64 Linux: char and wchar_t signed): accepted only by the `integral` functions
+CT = {"ch": (8, True), "wch": (32, True), "ch8": (8, False), "ch16": (16, False), "ch32": (32, False)}
+WIDTH = dict(ALL)
+WIDTH.update({k: v[0] for k, v in CT.items()})
+CHAR_UNARY = ["byteswap", "abs", "ilog2"]
+CHAR_BINARY = ["midpoint", "idiv", "ipow"]
 CHUNK = 32
 BINARY1 = ["add_sat", "add_sat_fb", "div_sat", "midpoint", "idiv", "ipow"]
 BINARY2 = ["gcd", "lcm", "cmp"]
 
 
 def signed(t):
-    return t in ST
+    return t in ST or (t in CT and CT[t][1])
 
 
 def tmin(t):
-    return -(1 << (ALL[t] - 1)) if signed(t) else 0
+    return -(1 << (WIDTH[t] - 1)) if signed(t) else 0
 
 
 def tmax(t):
-    return (1 << (ALL[t] - 1)) - 1 if signed(t) else (1 << ALL[t]) - 1
+    return (1 << (WIDTH[t] - 1)) - 1 if signed(t) else (1 << WIDTH[t]) - 1
 
 
 def in_t(t, v):
@@ -63,15 +79,15 @@ def in_t(t, v):
 
 
 def promote(t):
-    return "i32" if ALL[t] < 32 else t
+    return "i32" if WIDTH[t] < 32 else t
 
 
 def common(a, b):
     """common_type_t<a, b> as (width, signed)."""
-    if (ALL[a], signed(a)) == (ALL[b], signed(b)):
-        return (ALL[a], signed(a))
+    if (WIDTH[a], signed(a)) == (WIDTH[b], signed(b)):
+        return (WIDTH[a], signed(a))
     a, b = promote(a), promote(b)
-    wa, sa, wb, sb = ALL[a], signed(a), ALL[b], signed(b)
+    wa, sa, wb, sb = WIDTH[a], signed(a), WIDTH[b], signed(b)
     if sa == sb:
         return (max(wa, wb), sa)
     ws, wu = (wa, wb) if sa else (wb, wa)
@@ -85,7 +101,7 @@ def rmax(ws):
 
 def interesting(t, rnd=None, nrand=0):
     """single bits, all-ones-below, +-1 neighbours, limits (and negatives for signed types) + seeded random."""
-    w = ALL[t]
+    w = WIDTH[t]
     vs = {0, 1, 2, 3, tmin(t), tmax(t), tmin(t) + 1, tmax(t) - 1}
     for k in range(w + 1):
         for d in (-2, -1, 0, 1):
@@ -118,7 +134,7 @@ GRID16 = None
 
 def grid(t):
     """boundary grid for binary functions of a 16/32/64-bit type (about 24 points)."""
-    w = ALL[t]
+    w = WIDTH[t]
     vs = {0, 1, 2, 3, 7, tmax(t), tmax(t) - 1, tmin(t), tmin(t) + 1, tmax(t) // 2, tmax(t) // 2 + 1,
           1 << (w - 2), (1 << (w - 2)) - 1, 255, 256, 0x55 << (w - 8)}
     if signed(t):
@@ -131,13 +147,12 @@ def grid(t):
 # ---- domain predicates (identical to the hypotheses of the theorems in TetlProofs/C14/Props.lean)
 
 def dom_unary(op, t, a):
-    w = ALL[t]
+    w = WIDTH[t]
     if op == "bit_ceil":
         return a <= (1 << (w - 1))
     if op in ("abs", "mabs"):
         return not signed(t) or a != tmin(t)
-    if op == "ilog2":
-        return a >= 1
+    # ilog2: no restriction (ilog2_eq has no hypothesis: zero and the negative values give 0)
     if op == "ipow2":
         return 0 <= a and in_t(t, 1 << a) and a < max(w, 32)
     return True
@@ -146,6 +161,8 @@ def dom_unary(op, t, a):
 def dom_binary(op, t, u, a, b):
     if op in BINARY1 + BINARY2 and not in_t(u or t, b):
         return False                      # the second argument is a value of the (second) type
+    if op == "midpoint_ptr":
+        return True                       # both indices are generated inside 0..n
     if op in ("div_sat",):
         return b != 0
     if op == "idiv":
@@ -211,6 +228,9 @@ def generate(tier, seed):
         else:
             vals[t] = interesting(t, rnd, nr)
     small = {t: interesting(t, rnd, 40) for t in ALL}
+
+    def small_of(t):
+        return interesting(t, rnd, 40)
 
     # ---- <bit> unary
     for t in UT:
@@ -307,6 +327,36 @@ def generate(tier, seed):
             binary(op, t, pairs_a, fs + [-f for f in fs if in_t(t, -f)], u=t)
             av = [rnd.choice(small[t]) for _ in range(60 if not thorough else 600)]
             binary(op, t, av, small[t][:: 3 if not thorough else 1], u=t)
+    # ---- character types: the functions constrained by `integral` / `is_integral_v` only
+    for t in CT:
+        w = WIDTH[t]
+        cv = list(range(tmin(t), tmax(t) + 1)) if w == 8 else interesting(t, rnd, 200)
+        for op in CHAR_UNARY:
+            unary(op, t, cv)
+        unary("ipow2", t, list(range(0, 40)))
+        g = grid(t)
+        if w == 8:
+            av, bv = cv[::3] + [tmin(t), tmax(t)], cv
+        else:
+            av, bv = g, sorted(set(g) | set(small_of(t)))
+        for op in CHAR_BINARY:
+            binary(op, t, av, bv)
+        lo = -6 if signed(t) else 0
+        binary("ipow", t, list(range(lo, 7)), list(range(0, 34)))
+        for op in ("gcd", "lcm"):
+            binary(op, t, g, bv if w > 8 else cv, u=t)
+
+    # ---- midpoint(Ptr, Ptr): every pair of positions of small arrays (one past the end included), boundary
+    #      positions of larger ones; indices are ptrdiff_t values, the model type is i64
+    for n in (0, 1, 2, 3, 8, 33):
+        for ia in range(n + 1):
+            for ch in chunks(list(range(n + 1))):
+                add("midpoint_ptr t=i64 n=%d a=%d bs=%s" % (n, ia, lst(ch)), "midpoint_ptr/i64", len(ch))
+    for n in (1000, 65537, 1 << 20):
+        pts = sorted({0, 1, 2, n // 2 - 1, n // 2, n // 2 + 1, n - 2, n - 1, n} | {rnd.randint(0, n) for _ in range(20)})
+        for ia in pts:
+            for ch in chunks(pts):
+                add("midpoint_ptr t=i64 n=%d a=%d bs=%s" % (n, ia, lst(ch)), "midpoint_ptr/i64", len(ch))
     return cases, False, dist
 
 
@@ -388,18 +438,37 @@ TECHNIQUE = ("Lean 4 proof: hand model (generic in the bit width, C++ promotions
 LEVEL_TEXT = ("every modelled function — popcount (fallback), countl_zero, countl_one, countr_zero, countr_one, bit_width, bit_floor, "
               "bit_ceil, has_single_bit, rotl, rotr, test_bit, set_bit (both overloads), reset_bit, flip_bit, byteswap and its "
               "16/32/64-bit fallbacks, ntoh, hton, add_sat (builtin and fallback path), div_sat, saturate_cast, midpoint, gcd, lcm, "
-              "abs (both), idiv, ipow, ipow<2>, ilog2, the six cmp_* and in_range — is proved in Lean 4, for every bit width w / every "
-              "pair of integer types (byteswap/ntoh: every overload that exists) and every argument of the documented domain, "
+              "(integer and pointer overload), abs (both), idiv, ipow, ipow<2>, ilog2, the six cmp_* and in_range — is proved in Lean 4, "
+              "for every bit width of a builtin integer type (8, 16, 32, 64) and beyond that for every width w >= 1 satisfying the "
+              "hypothesis of the respective theorem (rotl/rotr: w divides 2^32 — shown sharp by a counterexample; midpoint: "
+              "w <= 16 or w >= 32; byteswap/ntoh/hton: the overloads that exist, 8/16/32/64 resp. 8/16/32; all other "
+              "theorems, the single-bit functions included: no restriction on w) / for every "
+              "pair of integer types, and for every argument of the documented domain, "
               "to return (never an error = never UB, never an overflow-dependent value) exactly the value of its mathematical "
               "definition (byteswap/ntoh/hton: the byte-reversed value; ipow: the exact power whenever it is representable). "
+              "ilog2 is proved without hypothesis (0 for zero and for negative values). "
+              "add_sat: both the __builtin_add_overflow path and detail::add_sat_fallback are proved equal to the clamp, "
+              "but under GCC/clang add_sat always takes the builtin path (the fallback is the `#else` branch, dead code "
+              "here): the fallback is tied to the source only because the harness calls etl::detail::add_sat_fallback "
+              "directly, and the dispatch of add_sat to it is never exercised in any run. "
               "The model is tied "
               "to the current source on every run by running model and implementation (builtin and portable-fallback paths) on "
               "the same inputs under ASan/UBSan: all 8-bit values and pairs, all 16-bit values, boundary/random 32/64-bit "
-              "values, rotation counts -130..130, all 100 type pairs for the mixed-type functions; the spec is validated "
+              "values, rotation counts -130..130, all 100 type pairs for the mixed-type functions, the character types "
+              "(char, wchar_t, char8_t, char16_t, char32_t) for the `integral` functions, pointer pairs for midpoint; "
+              "the spec is validated "
               "against libstdc++ and __int128 arithmetic on the same inputs.")
 LEVEL_NOTE = ("Trusted: Lean kernel + propext/Classical.choice/Quot.sound; the hand model's fidelity outside the explored inputs; "
               "g++-12/ASan/UBSan; compiler builtins; libstdc++ as oracle for spec validation. coverage.correspondence_only is empty: "
-              "every modelled function has a theorem.")
+              "every modelled function has a theorem. Not driven here: (1) failing preconditions — the harness is built "
+              "without TETL_ENABLE_CONTRACT_CHECKS, so TETL_PRECONDITION(pos < static_cast<UInt>(digits)) of "
+              "test/set/reset/flip_bit is an empty macro and a position >= digits (in particular >= 2^31 for the 32/64-bit "
+              "types) would only run into the undefined shift; the model mirrors the check as written "
+              "(Props.bitPos_pre_iff, bitPos_pre_fails) and the failing side is executed by C05; (2) the dispatch of add_sat "
+              "to add_sat_fallback (dead `#else` branch under GCC/clang; the fallback itself is run by a direct call); "
+              "(3) bool as argument type (ilog2<bool> does not compile, midpoint/lcm exclude it, and conversion to bool "
+              "is not the modular conversion of the model); (4) ilog2(x <= 0) has no independent oracle (reference "
+              "column = the documented 0).")
 # functions modelled and compared on every run but without a Lean theorem yet (none left)
 CORRESPONDENCE_ONLY = []
 THEOREMS = {
@@ -408,16 +477,16 @@ THEOREMS = {
     "bit_floor": ["C14.Props.bitFloor_eq"], "bit_ceil": ["C14.Props.bitCeil_eq"],
     "rotl": ["C14.Props.rotl_eq"], "rotr": ["C14.Props.rotr_eq"],
     "add_sat": ["C14.Props.addSat_eq"], "add_sat_fb": ["C14.Props.addSatFallback_eq"],
-    "midpoint": ["C14.Props.midpoint_eq"], "div_sat": ["C14.Props.divSat_eq"], "idiv": ["C14.Props.idiv_eq"], "gcd": ["C14.Props.gcd_eq"], "lcm": ["C14.Props.lcm_eq"],
+    "midpoint": ["C14.Props.midpoint_eq"], "midpoint_ptr": ["C14.Props.midpointPtr_eq"], "div_sat": ["C14.Props.divSat_eq"], "idiv": ["C14.Props.idiv_eq"], "gcd": ["C14.Props.gcd_eq"], "lcm": ["C14.Props.lcm_eq"],
     "abs": ["C14.Props.absT_eq"], "mabs": ["C14.Props.absM_eq"], "ilog2": ["C14.Props.ilog2_eq"],
     "cmp": ["C14.Props.cmpEqual_eq", "C14.Props.cmpNotEqual_eq", "C14.Props.cmpLess_eq", "C14.Props.cmpGreater_eq",
             "C14.Props.cmpLessEqual_eq", "C14.Props.cmpGreaterEqual_eq"],
-    "test_bit": ["C14.Props.testBit_eq"], "ipow2": ["C14.Props.ipow2_eq"],
+    "test_bit": ["C14.Props.testBit_eq_anyw"], "ipow2": ["C14.Props.ipow2_eq"],
     "in_range": ["C14.Props.inRange_eq"], "saturate_cast": ["C14.Props.saturateCast_eq"],
-    "countl_one": ["C14.Props.countlOne_eq"], "countr_zero": ["C14.Props.countrZero_eq"],
-    "countr_one": ["C14.Props.countrOne_eq"], "has_single_bit": ["C14.Props.hasSingleBit_eq"],
-    "set_bit": ["C14.Props.setBit_eq"], "set_bit_1": ["C14.Props.setBitTo_eq"], "set_bit_0": ["C14.Props.setBitTo_eq"],
-    "reset_bit": ["C14.Props.resetBit_eq"], "flip_bit": ["C14.Props.flipBit_eq"],
+    "countl_one": ["C14.Props.countlOne_eq"], "countr_zero": ["C14.Props.countrZero_eq_anyw"],
+    "countr_one": ["C14.Props.countrOne_eq_anyw"], "has_single_bit": ["C14.Props.hasSingleBit_eq"],
+    "set_bit": ["C14.Props.setBit_eq_anyw"], "set_bit_1": ["C14.Props.setBitTo_eq_anyw"], "set_bit_0": ["C14.Props.setBitTo_eq_anyw"],
+    "reset_bit": ["C14.Props.resetBit_eq_anyw"], "flip_bit": ["C14.Props.flipBit_eq_anyw"],
     "byteswap": ["C14.Props.byteswap_eq"], "byteswap_fb": ["C14.Props.byteswapFallback_eq"],
     "ntoh": ["C14.Props.ntoh_eq"], "hton": ["C14.Props.hton_eq"], "ipow": ["C14.Props.ipow_eq"],
 }
